@@ -91,7 +91,8 @@ OUTER:
 		m.invalidateLatestSnapshotLOCKED()
 
 		stackCleanPrev = m.stackClean
-		if m.options.CachePersisted {
+		if m.options.CachePersisted &&
+			!m.stackDirtyBase.hasMergeOperands() {
 			m.stackClean = m.stackDirtyBase
 		} else {
 			m.stackClean = nil
